@@ -25,6 +25,7 @@ EXPLANATION = (
     "decided: string comparison on exotic padding beyond strip()."
     ' Second session: item-not-dropped - no except clause in the PDU codec swallows a failed conversion of a received item (a user-identity item that cannot be converted must fail the PDU, not vanish before the identity check).'
     " Fourth session: (binding) AssociationServer.active_associations is evaluated on a thread list with associations of two servers of one AE: handlers are pushed to exactly the server's own acceptor associations."
+    ' Fifth round: a trivial getter property (`self.ae` returning `self.assoc.ae`) is read as the chain it returns, on both sides of a comparison.'
 )
 
 
